@@ -141,12 +141,22 @@ structure Prims where
   filter : Mode → String → List V → List (String × V) → Except Err V
   /-- `PerformTest(name)` -/
   test : Mode → String → List V → List (String × V) → Except Err Bool
+  /-- does `Expr::as_const` have an arm for this variant of `enum Expr`?  (The concrete instance
+      reads the list regenerated from `compiler/ast.rs`; the model's folder dispatches over it, so
+      it folds exactly the node kinds the source folds.) -/
+  foldsVariant : String → Bool
+  /-- is this compile-time special case present in `compiler/codegen.rs`?  (`"fold-first"`,
+      `"neg-const-shortcut"`, `"static-kwargs"`; regenerated from the source as well) -/
+  codegenSpecial : String → Bool
 
 abbrev Env := String → Option V
 
 def Except.toOpt {α : Type} : Except Err α → Option α
   | .ok a => some a
   | .error _ => none
+
+/-- an arm / special case that is only there when the source has it -/
+def gate {α : Type} (present : Bool) (x : Option α) : Option α := if present then x else none
 
 section
 variable (P : Prims)
@@ -222,19 +232,21 @@ mutual
   def asConst : Expr → Option V
     | .const v => some v
     | .var _ => none
-    | .list items => (constValues items).map V.list
-    | .tuple items => (constValues items).map V.tuple
-    | .map kvs => (constPairs kvs).map P.mkMap
-    | .not e => (asConst e).map fun v => .bool (!P.isTrue v)
-    | .neg e => (asConst e).bind fun v => Except.toOpt (P.neg v)
+    | .list items => gate (P.foldsVariant "List") ((constValues items).map V.list)
+    | .tuple items => gate (P.foldsVariant "Tuple") ((constValues items).map V.tuple)
+    | .map kvs => gate (P.foldsVariant "Map") ((constPairs kvs).map P.mkMap)
+    | .not e => gate (P.foldsVariant "UnaryOp") ((asConst e).map fun v => .bool (!P.isTrue v))
+    | .neg e => gate (P.foldsVariant "UnaryOp") ((asConst e).bind fun v => Except.toOpt (P.neg v))
     | .bin op l r =>
-      match asConst l, asConst r with
-      | some a, some b => evalBinop P op a b
-      | _, _ => none
+      gate (P.foldsVariant "BinOp")
+        (match asConst l, asConst r with
+         | some a, some b => evalBinop P op a b
+         | _, _ => none)
     | .cmp e ops =>
-      match asConst e with
-      | some left => asConstChain left ops
-      | none => none
+      gate (P.foldsVariant "Compare")
+        (match asConst e with
+         | some left => asConstChain left ops
+         | none => none)
     -- `_ => None`
     | .getAttr _ _ => none
     | .getItem _ _ => none
@@ -547,9 +559,12 @@ end
 
 /-! ## what `compile_expr` really emits: fold first, otherwise run-time code over compiled children -/
 
+/-- the constant `compile_expr` loads instead of compiling the expression -/
+def foldFirst (e : Expr) : Option V := gate (P.codegenSpecial "fold-first") (asConst P e)
+
 /-- `if let Some(v) = expr.as_const() { LoadConst(v); return }` -/
 def folded (e : Expr) (rt : Except Err V) : Except Err V :=
-  match asConst P e with
+  match foldFirst P e with
   | some v => .ok v
   | none => rt
 
@@ -576,9 +591,10 @@ mutual
     | .neg e => folded P (.neg e)
       -- the `Neg` special case of `compile_expr`: a constant operand is negated at compile time
       -- when that succeeds
-      (match (match e with
-              | .const c => Except.toOpt (P.neg c)
-              | _ => none) with
+      (match gate (P.codegenSpecial "neg-const-shortcut")
+               (match e with
+                | .const c => Except.toOpt (P.neg c)
+                | _ => none) with
       | some negated => .ok negated
       | none =>
         match evalC e with
@@ -638,7 +654,7 @@ mutual
       | .ok v => match evalCList pos with
         | .error e => .error e
         | .ok ps =>
-          match constKws kws with
+          match gate (P.codegenSpecial "static-kwargs") (constKws kws) with
           | some ks => P.filter m name (v :: ps) ks
           | none => match evalCKws kws with
             | .error e => .error e
@@ -649,7 +665,7 @@ mutual
       | .ok v => match evalCList pos with
         | .error e => .error e
         | .ok ps =>
-          match constKws kws with
+          match gate (P.codegenSpecial "static-kwargs") (constKws kws) with
           | some ks => testInstr P m name (v :: ps) ks
           | none => match evalCKws kws with
             | .error e => .error e
@@ -659,7 +675,7 @@ mutual
       | .error e => .error e
       | .ok ps =>
         -- static keyword arguments: collected at compile time into one `LoadConst(Kwargs)`
-        match constKws kws with
+        match gate (P.codegenSpecial "static-kwargs") (constKws kws) with
         | some ks => P.callKw m name ps ks
         | none => match evalCKws kws with
           | .error e => .error e
@@ -715,7 +731,7 @@ inductive Code where
 /-- code generation has no error channel: a constant expression whose evaluation fails is simply
     not folded (`.ok()` / `?` turn the error into `None`) -/
 def compileTop (e : Expr) : Code :=
-  match asConst P e with
+  match foldFirst P e with
   | some v => .loadConst v
   | none => .runtime e
 
